@@ -314,6 +314,8 @@ def run(rep):
     rep.floor("R-C12-abs", 4 * 7)
     rep.floor("R-C12-rel", 4)
     rep.clause("R-C12-abs / R-C12-rel", "the ratio that takes effect is the requested one: the absolute setter stores its argument, the relative setter stores original·x (shared with C12)")
+    import shares
+    shares.carry(rep, ASYNC, "the time-warp is continuous across calls only if position and history are carried consistently")
     rep.floor("R-C06-setter", 1 + 4 * 7)
     rep.floor("R-C06-step", 4 * 3 + 18)
     rep.floor("R-C06-scev", 9)
